@@ -22,7 +22,7 @@ def evalRepair (op : String) (args : List Sexp) : Option String :=
       pure (encRepairOutcome (repairOrd t (Table.groups t).reverse))
   | "c12.shape", fs => do
       let t ← fs.mapM decFeature?
-      pure (encBool (Table.noTopJoin t) ++ encBool (Table.keysInj t) ++ encBool (Table.plain t))
+      pure (encBool (Table.plain t) ++ encBool (Table.noNil t))
   | "c12.k2", fs => do pure (encBool (Table.k2 (← fs.mapM decFeature?)))
   | "feat.classkey", [f] => do pure (encStr (classKey (← decFeature? f)))
   | _, _ => none
